@@ -220,12 +220,16 @@ Fixpoint comp (q : query) (ce : cenv) (cur pc nv sn : nat) : res :=
                   end, s1)
         | None => None
         end in
+      (* scope ids grow: the id of a new scope exceeds the id of the scope being compiled (always true for the
+         calls made by compile_raw: cur = 1, sn = 2 initially) *)
+      if Nat.ltb cur sn then
       match arg b (S pc) sn with
       | Some (cb, s1) =>
           match arg a (S pc + length cb) s1 with
           | Some (ca, s2) => Some (Istore v :: cb ++ ca ++ [Iload v; Icall (NF2 o)], S nv, s2)
           | None => None end
       | None => None end
+      else None
   end.
 
 (* Compile(): opscope (lazy: final variablecnt), the query, opret *)
